@@ -124,6 +124,8 @@ class Engine:
             self.r_copy_index = {}
             self.r_copy_apps = {}
             self.overapprox_used = False   # a stub chose a value from a sound over-approximation on this path
+            self.decided = {}              # z3 ast id -> truth value already fixed on this path (syntactic re-use, no solver call)
+            self._decided_keep = []
             res = PathResult()
             res.pid = self.n_paths
             self.path = res
@@ -134,6 +136,13 @@ class Engine:
                     res.value = fn()
                 except PathAbort:
                     res.feasible = False
+                except Unsupported:
+                    # an unmodelled operation on a path that is in fact dead (a trusted fork whose path condition is
+                    # unsatisfiable) is not an obstacle: only a feasible path makes the run inconclusive
+                    if self.check_feasibility and self._check() == 'unsat':
+                        res.feasible = False
+                    else:
+                        raise
                 except Exception as e:          # outcome of the code under test
                     res.exc = e
                 res.decisions = list(self.decisions)
@@ -163,9 +172,16 @@ class Engine:
             # z3 gives up quickly on some mixed integer/real queries with uninterpreted functions that cvc5 decides in a
             # second: hand the same assertions to cvc5 as SMT-LIB text
             from . import cvc5_backend
-            r, m = cvc5_backend.check(self.solver.assertions(), assumptions, self.solver_timeout_ms)
+            r, m = cvc5_backend.check(self.solver.assertions(), assumptions, min(self.solver_timeout_ms, 20000))
             self.last_model = m
             self.n_fallback_calls += 1
+            if r == 'unknown':
+                # third try: z3 again with the full budget (some queries need seconds, not the 500 ms of the first try)
+                self.solver.set('timeout', self.solver_timeout_ms)
+                r = str(self.solver.check(*assumptions))
+                self.n_solver_calls += 1
+                if r == 'sat':
+                    self.last_model = self.solver.model()
         self.solver_time += time.time() - t
         return r
 
@@ -279,12 +295,20 @@ class Engine:
             d = self.prefix[i]
             self.decisions.append(d)
             self.add(t if d else z3.Not(t))
+            self._remember(t, d)
             return d
+        known = self.decided.get(t.get_id())
+        if known is not None:
+            # the same condition (or its negation) was decided earlier on this path, e.g. by the other implementation of a
+            # differential harness: recorded as a decision so that re-execution indexes alike
+            self.decisions.append(known)
+            return known
         quick = self._interval_decide(t) if (self.check_feasibility and not trust_feasible) else None
         if quick is not None:
             # implied by the bounds already on the path: recorded as a decision (re-execution must index alike), no solver call
             self.decisions.append(quick)
             self.add(t if quick else z3.Not(t))
+            self._remember(t, quick)
             return quick
         if trust_feasible or not self.check_feasibility:
             can_t = can_f = True
@@ -301,7 +325,14 @@ class Engine:
             d = can_t
         self.decisions.append(d)
         self.add(t if d else z3.Not(t))
+        self._remember(t, d)
         return d
+
+    def _remember(self, t, d):
+        nt = z3.Not(t)
+        self._decided_keep.append((t, nt))
+        self.decided[t.get_id()] = d
+        self.decided[nt.get_id()] = not d
 
     def choose(self, n, label='choice'):
         """Non-deterministic choice among range(n) as a chain of forks (harness use)."""
